@@ -63,7 +63,11 @@ Theorem C15_unique_id_refuted :
 Proof. exact unique_id_refuted. Qed.
 Print Assumptions C15_unique_id_refuted.
 
-(* The repaired protocol looks the id up again inside the critical section ... *)
+(* The code in the tree looks the id up again inside the critical section ... *)
+Theorem C15_code_rechecks : code_rechecks = true.
+Proof. exact code_rechecks_true. Qed.
+Print Assumptions C15_code_rechecks.
+
 (* ... and for that protocol, from a table without duplicates: in every reachable state no id (case-insensitively) is
    held by two slots; at most one of the registrations of the same case-insensitive id succeeds, under every
    interleaving; and none succeeds for an id the table already held *)
